@@ -103,6 +103,7 @@ class Gen:
         """rewrite operator nodes whose operands are all constant (the folder would
         evaluate them at -O1/-O2: C02's subject) unless hazards are requested"""
         if self.f['hazards']:
+            self.tag_hazards(e)
             return e
         t = e[0]
         if t in (3, 5):
@@ -121,6 +122,26 @@ class Gen:
         elif t in (9, 10):
             e[2] = [self.fixe(x) for x in e[2]]
         return e
+
+    def tag_hazards(self, e):
+        t = e[0]
+        if t == 7:
+            if self.is_const(e[2]) and self.is_const(e[3]):
+                self.hazards.append('const-expr')
+            self.tag_hazards(e[2])
+            self.tag_hazards(e[3])
+        elif t == 6:
+            if self.is_const(e[2]):
+                if e[1] == 2:
+                    self.hazards.append('const-expr')
+                elif e[2][0] == 1 and e[2][1][0] in (S, D) and bits2f(e[2][1][1]) >= 2 ** 31:
+                    self.hazards.append('neg-float-literal')
+            self.tag_hazards(e[2])
+        elif t == 8:
+            self.tag_hazards(e[1])
+        elif t in (3, 5, 9, 10):
+            for x in e[2]:
+                self.tag_hazards(x)
 
     def num_leaf(self, sc, want=None):
         ty = want or self.pick(NUM)
@@ -792,7 +813,7 @@ def random_program(seed, index, features=None):
     p = g.build()
     src = p.layout()
     script = {'lines': g.script['lines'],
-              'rnd': [fbits(x) for x in g.script['rnd']] + [fbits(0.5)] * 4,
-              'timer': [fbits(x) for x in g.script['timer']] + [fbits(1.0)] * 4}
+              'rnd': [fbits(x) for x in g.script['rnd']] + [fbits(0.5), fbits(0.25)] * 40,
+              'timer': [fbits(x) for x in g.script['timer']] + [fbits(1.0), fbits(2.5)] * 40}
     return {'src': src, 'sx': p.sx(), 'script': script, 'stats': p.stats,
             'hazards': sorted(set(g.hazards)), 'index': index}
